@@ -97,12 +97,12 @@ example : (natOfBytesBE (intToBytes (2 ^ 31)) : Int) = 2 ^ 31 := deadline_readba
 section htlc
 variable (H : Hashes) (C : Curve)
 
-/-- the acceptance condition of an HTLC lock (first layout), as a function of its inputs:
-    `hx` is the hash of the supplied preimage item -/
-def htlcSpec (cfg : Cfg) (cache : List (CKey × CVal)) (hx digest receiver refund sig : Bytes) (deadline : Int) (flags : Nat)
+/-- the outcome of the two-armed tail `if <sel> { push <claim key> } else { push <deadline> check_timestamp_verify
+    push <refund key> } check_sig <flags>` shared by the HTLC and PTLC locks, as a function of its inputs -/
+def armsSpec (cfg : Cfg) (cache : List (CKey × CVal)) (sel : Bool) (claim refund sig : Bytes) (deadline : Int) (flags : Nat)
     (t thr : Int) (st : List Bytes) : Except Err (List Bytes) :=
-  if (digest == hx) = true then
-    match SigPure.checkSig H C cfg.lim.maxItemSize cache flags sig receiver with
+  if sel = true then
+    match SigPure.checkSig H C cfg.lim.maxItemSize cache flags sig claim with
     | .ok b => .ok (boolBytes b :: st)
     | .error e => .error (.user e)
   else if C16.tsAccept t cfg.now thr (intToBytes deadline) = false then .error (.user .see)
@@ -111,28 +111,22 @@ def htlcSpec (cfg : Cfg) (cache : List (CKey × CVal)) (hx digest receiver refun
     | .ok b => .ok (boolBytes b :: st)
     | .error e => .error (.user e)
 
-/-- the lock after its hash instruction -/
-def htlcTail (digest receiver refund : Bytes) (deadline : Int) (flags : Nat) : Bytes :=
-  pushB digest ++ (EQUAL ++ (ifElse (pushB receiver) (refundArm deadline refund) ++ CHECK_SIG flags))
-
-theorem htlcLock_bytes (hashOp digest receiver refund : Bytes) (deadline : Int) (flags : Nat) :
-    htlcLock hashOp digest receiver refund deadline flags = hashOp ++ htlcTail digest receiver refund deadline flags := by
-  simp only [htlcLock, htlcTail, List.append_assoc]
+def armsTail (claim refund : Bytes) (deadline : Int) (flags : Nat) : Bytes :=
+  ifElse (pushB claim) (refundArm deadline refund) ++ CHECK_SIG flags
 
 set_option maxHeartbeats 1600000 in
-/-- the part of an HTLC lock after the hash instruction, run from a stack `hx :: sig :: st` in a
-    frame whose tape length bound is `len` -/
-theorem htlcTail_run (cfg : Cfg) (hno : cfg.sigExts = []) (hx digest receiver refund sig : Bytes) (deadline : Int)
+/-- the two-armed tail, run from a stack `c :: sig :: st` -/
+theorem armsTail_run (cfg : Cfg) (hno : cfg.sigExts = []) (c claim refund sig : Bytes) (deadline : Int)
     (flags : Nat) (st : List Bytes) (sh : Shared) (fr : Frame) (t thr : Int)
-    (hfrest : fr.rest = htlcTail digest receiver refund deadline flags)
-    (hcap : fr.len0 < fr.cap) (hlen0 : (htlcTail digest receiver refund deadline flags).length < fr.len0)
-    (hd0 : 0 < digest.length) (hd1 : digest.length ≤ 64) (hrc : receiver.length = 32) (hrf : refund.length = 32)
+    (hfrest : fr.rest = armsTail claim refund deadline flags)
+    (hcap : fr.len0 < fr.cap) (hlen0 : (armsTail claim refund deadline flags).length ≤ fr.len0)
+    (hrc : claim.length = 32) (hrf : refund.length = 32)
     (hdl : (intToBytes deadline).length ≤ 64) (hfl : flags < 256)
-    (hs : sh.stack = hx :: sig :: st) (hr : sh.returned = false)
+    (hs : sh.stack = c :: sig :: st) (hr : sh.returned = false)
     (ht : lookupC C16.tsKey sh.cache = some (.atom (.int t))) (hthr : cfg.tsThreshold = some thr)
-    (hsz : 64 ≤ cfg.lim.maxItemSize) (hroom : st.length + 4 ≤ cfg.lim.maxItems) :
+    (hsz : 64 ≤ cfg.lim.maxItemSize) (hroom : st.length + 3 ≤ cfg.lim.maxItems) :
     Ends (instrTable H C cfg) cfg.lim fr sh
-      (fun r => Res.summary r = htlcSpec H C cfg sh.cache hx digest receiver refund sig deadline flags t thr st) := by
+      (fun r => Res.summary r = armsSpec H C cfg sh.cache (truthy c) claim refund sig deadline flags t thr st) := by
   have hdne : 0 < (intToBytes deadline).length := by
     have := C10.encode_ne_nil deadline
     cases h : intToBytes deadline with
@@ -145,8 +139,7 @@ theorem htlcTail_run (cfg : Cfg) (hno : cfg.sigExts = []) (hx digest receiver re
     · simp [h, opc]
     · have : 1 < v.length ∧ v.length < 256 := by omega
       simp [h, this, opc, natToBytesBE_length]; omega
-  -- lengths of the two IF bodies, for the operand reads and the inline-frame guard
-  have hla : (pushB receiver).length ≤ 34 := by have := hpl receiver (by omega) (by omega); omega
+  have hla : (pushB claim).length ≤ 34 := by have := hpl claim (by omega) (by omega); omega
   have hlr : (refundArm deadline refund).length ≤ 101 := by
     unfold refundArm
     have h1 := hpl (intToBytes deadline) hdne hdl
@@ -157,42 +150,36 @@ theorem htlcTail_run (cfg : Cfg) (hno : cfg.sigExts = []) (hx digest receiver re
   have hpi : Tools.pushInt deadline = pushB (intToBytes deadline) := rfl
   have hrestB : refundArm deadline refund = pushB (intToBytes deadline) ++ (opc CTSV ++ pushB refund) := by
     simp only [refundArm, hpi, List.append_assoc]
-  have htl : (htlcTail digest receiver refund deadline flags).length ≥ (pushB receiver).length + (refundArm deadline refund).length := by
-    simp [htlcTail, ifElse]; omega
-  have hbl_a : (pushB receiver).length < fr.len0 := by omega
+  have htl : (armsTail claim refund deadline flags).length ≥ (pushB claim).length + (refundArm deadline refund).length + 1 := by
+    simp [armsTail, ifElse, opc]; omega
+  have hbl_a : (pushB claim).length < fr.len0 := by omega
   have hbl_b : (refundArm deadline refund).length < fr.len0 := by omega
-  rw [show fr = { fr with rest := htlcTail digest receiver refund deadline flags } by cases fr; simp_all]
-  unfold htlcTail
-  -- push digest; equal
-  refine Ends.step (fun r h => run_pushB H C cfg _ sh digest _ r hd0 (by omega) rfl hcap hr (by omega) (by rw [hs]; simp; omega) h) ?_
-  dsimp only
-  refine Ends.step (fun r h => run_equal H C cfg _ _ _ digest hx (sig :: st) r rfl hcap hr (by rw [hs]) (by omega) (by simp; omega) h) ?_
-  dsimp only
-  unfold htlcSpec
-  by_cases heq : (digest == hx) = true
-  · -- claim path: the receiver key
-    rw [if_pos heq]
-    refine Ends.step (fun r h => run_ifelse_ok H C cfg _ _ _ _ _ (pushB receiver) (refundArm deadline refund)
-        (boolBytes (digest == hx)) (sig :: st) r rfl (by omega) (by omega) hcap hr rfl
+  rw [show fr = { fr with rest := armsTail claim refund deadline flags } by cases fr; simp_all]
+  unfold armsTail armsSpec
+  by_cases hsel : truthy c = true
+  · -- claim arm
+    rw [if_pos hsel]
+    refine Ends.step (fun r h => run_ifelse_ok H C cfg _ _ _ _ _ (pushB claim) (refundArm deadline refund)
+        c (sig :: st) r rfl (by omega) (by omega) hcap hr hs
         (by
-          rw [heq, show truthy (boolBytes true) = true by decide, if_pos rfl]
-          exact run_pushB H C cfg _ _ receiver [] _ (by omega) (by omega) (by simp [inlineFrame]) (by simpa [inlineFrame] using hbl_a)
+          rw [hsel, if_pos rfl]
+          exact run_pushB H C cfg _ _ claim [] _ (by omega) (by omega) (by simp [inlineFrame]) (by simpa [inlineFrame] using hbl_a)
             (by simp [copyDict, hr]) (by omega) (by simp [copyDict]; omega) (TSteps.nil rfl))
         (by simp [copyDict, hr]) h) ?_
     dsimp only
-    refine ⟨_, run_checksig_last H C cfg hno _ _ flags receiver sig st rfl hfl hcap (by simp [copyDict, hr]) (by simp [copyDict]) (by omega) (by omega), ?_⟩
+    refine ⟨_, run_checksig_last H C cfg hno _ _ flags claim sig st rfl hfl hcap (by simp [copyDict, hr]) (by simp [copyDict]) (by omega) (by omega), ?_⟩
     simp only [copyDict]
-    cases SigPure.checkSig H C cfg.lim.maxItemSize sh.cache flags sig receiver <;> rfl
-  · -- refund path: deadline, then the refund key
-    have heq' : (digest == hx) = false := by simpa using heq
-    rw [if_neg heq]
+    cases SigPure.checkSig H C cfg.lim.maxItemSize sh.cache flags sig claim <;> rfl
+  · -- refund arm
+    have hsel' : truthy c = false := by simpa using hsel
+    rw [if_neg hsel]
     by_cases hacc : C16.tsAccept t cfg.now thr (intToBytes deadline) = true
     · have hacc' : ¬ (C16.tsAccept t cfg.now thr (intToBytes deadline) = false) := by simp [hacc]
       rw [if_neg hacc']
-      refine Ends.step (fun r h => run_ifelse_ok H C cfg _ _ _ _ _ (pushB receiver) (refundArm deadline refund)
-          (boolBytes (digest == hx)) (sig :: st) r rfl (by omega) (by omega) hcap hr rfl
+      refine Ends.step (fun r h => run_ifelse_ok H C cfg _ _ _ _ _ (pushB claim) (refundArm deadline refund)
+          c (sig :: st) r rfl (by omega) (by omega) hcap hr hs
           (by
-            rw [heq', show truthy (boolBytes false) = false by decide]
+            rw [hsel']
             simp only [Bool.false_eq_true, ↓reduceIte]
             refine run_pushB H C cfg _ _ (intToBytes deadline) (opc CTSV ++ pushB refund) _ hdne (by omega) (by simp [inlineFrame, hrestB])
               (by simpa [inlineFrame] using hbl_b) (by simp [copyDict, hr]) (by omega) (by simp [copyDict]; omega) ?_
@@ -210,10 +197,10 @@ theorem htlcTail_run (cfg : Cfg) (hno : cfg.sigExts = []) (hx digest receiver re
       cases SigPure.checkSig H C cfg.lim.maxItemSize sh.cache flags sig refund <;> rfl
     · have hacc' : C16.tsAccept t cfg.now thr (intToBytes deadline) = false := by simpa using hacc
       rw [if_pos hacc']
-      refine ⟨_, run_ifelse_err H C cfg _ _ _ _ (pushB receiver) (refundArm deadline refund)
-          (boolBytes (digest == hx)) (sig :: st) (.user .see) rfl (by omega) (by omega) hcap hr rfl (by decide)
+      refine ⟨_, run_ifelse_err H C cfg _ _ _ _ (pushB claim) (refundArm deadline refund)
+          c (sig :: st) (.user .see) rfl (by omega) (by omega) hcap hr hs (by decide)
           (by
-            rw [heq', show truthy (boolBytes false) = false by decide]
+            rw [hsel']
             simp only [Bool.false_eq_true, ↓reduceIte]
             refine run_pushB H C cfg _ _ (intToBytes deadline) (opc CTSV ++ pushB refund) _ hdne (by omega) (by simp [inlineFrame, hrestB])
               (by simpa [inlineFrame] using hbl_b) (by simp [copyDict, hr]) (by omega) (by simp [copyDict]; omega) ?_
@@ -223,6 +210,48 @@ theorem htlcTail_run (cfg : Cfg) (hno : cfg.sigExts = []) (hx digest receiver re
               (by simpa [copyDict] using ht) hthr (by omega) (by simp; omega) hacc'), ?_⟩
       rfl
 
+/-- the acceptance condition of an HTLC lock (first layout): `hx` is the hash of the supplied
+    preimage item; the claim arm is selected exactly when it equals the digest -/
+def htlcSpec (cfg : Cfg) (cache : List (CKey × CVal)) (hx digest receiver refund sig : Bytes) (deadline : Int) (flags : Nat)
+    (t thr : Int) (st : List Bytes) : Except Err (List Bytes) :=
+  armsSpec H C cfg cache (digest == hx) receiver refund sig deadline flags t thr st
+
+/-- the lock after its hash instruction -/
+def htlcTail (digest receiver refund : Bytes) (deadline : Int) (flags : Nat) : Bytes :=
+  pushB digest ++ (EQUAL ++ armsTail receiver refund deadline flags)
+
+theorem htlcLock_bytes (hashOp digest receiver refund : Bytes) (deadline : Int) (flags : Nat) :
+    htlcLock hashOp digest receiver refund deadline flags = hashOp ++ htlcTail digest receiver refund deadline flags := by
+  simp only [htlcLock, htlcTail, armsTail, List.append_assoc]
+
+/-- the part of an HTLC lock after the hash instruction, run from a stack `hx :: sig :: st` -/
+theorem htlcTail_run (cfg : Cfg) (hno : cfg.sigExts = []) (hx digest receiver refund sig : Bytes) (deadline : Int)
+    (flags : Nat) (st : List Bytes) (sh : Shared) (fr : Frame) (t thr : Int)
+    (hfrest : fr.rest = htlcTail digest receiver refund deadline flags)
+    (hcap : fr.len0 < fr.cap) (hlen0 : (htlcTail digest receiver refund deadline flags).length < fr.len0)
+    (hd0 : 0 < digest.length) (hd1 : digest.length ≤ 64) (hrc : receiver.length = 32) (hrf : refund.length = 32)
+    (hdl : (intToBytes deadline).length ≤ 64) (hfl : flags < 256)
+    (hs : sh.stack = hx :: sig :: st) (hr : sh.returned = false)
+    (ht : lookupC C16.tsKey sh.cache = some (.atom (.int t))) (hthr : cfg.tsThreshold = some thr)
+    (hsz : 64 ≤ cfg.lim.maxItemSize) (hroom : st.length + 4 ≤ cfg.lim.maxItems) :
+    Ends (instrTable H C cfg) cfg.lim fr sh
+      (fun r => Res.summary r = htlcSpec H C cfg sh.cache hx digest receiver refund sig deadline flags t thr st) := by
+  have hlt : (armsTail receiver refund deadline flags).length ≤ fr.len0 := by
+    have : (htlcTail digest receiver refund deadline flags).length ≥ (armsTail receiver refund deadline flags).length := by
+      simp [htlcTail]; omega
+    omega
+  rw [show fr = { fr with rest := htlcTail digest receiver refund deadline flags } by cases fr; simp_all]
+  unfold htlcTail
+  refine Ends.step (fun r h => run_pushB H C cfg _ sh digest _ r hd0 (by omega) rfl hcap hr (by omega) (by rw [hs]; simp; omega) h) ?_
+  dsimp only
+  refine Ends.step (fun r h => run_equal H C cfg _ _ _ digest hx (sig :: st) r rfl hcap hr (by rw [hs]) (by omega) (by simp; omega) h) ?_
+  dsimp only
+  have := armsTail_run H C cfg hno (boolBytes (digest == hx)) receiver refund sig deadline flags st
+    { sh with stack := boolBytes (digest == hx) :: sig :: st }
+    { fr with rest := armsTail receiver refund deadline flags } t thr rfl hcap hlt hrc hrf hdl hfl rfl hr ht hthr hsz (by omega)
+  have htr : truthy (boolBytes (digest == hx)) = (digest == hx) := by cases (digest == hx) <;> decide
+  rw [htr] at this
+  exact this
 
 /-- deadlines below 2^62 (any realistic UNIX time plus timeout) encode in at most 9 bytes -/
 theorem deadline_len (d : Int) (h0 : 0 ≤ d) (h1 : d < 2 ^ 62) : (intToBytes d).length ≤ 64 := by
@@ -288,7 +317,7 @@ theorem htlcSpec_accepts_iff (cfg : Cfg) (cache : List (CKey × CVal)) (hx diges
       ((digest = hx ∧ SigPure.checkSig H C cfg.lim.maxItemSize cache flags sig receiver = .ok true) ∨
        (digest ≠ hx ∧ deadline ≤ t ∧ (thr ≤ 0 ∨ t - cfg.now < thr) ∧
           SigPure.checkSig H C cfg.lim.maxItemSize cache flags sig refund = .ok true)) := by
-  unfold htlcSpec
+  unfold htlcSpec armsSpec
   rw [refund_time_condition t cfg.now thr deadline hdl0]
   by_cases heq : digest = hx
   · subst heq
@@ -308,6 +337,70 @@ theorem htlcSpec_accepts_iff (cfg : Cfg) (cache : List (CKey × CVal)) (hx diges
       · intro h; cases h
       · intro ⟨h1, h2, _⟩; exact absurd ⟨h1, h2⟩ hw
 
+
+/-! ### the PTLC lock -/
+
+/-- the bytes of `make_ptlc_lock` once the claim key is known -/
+theorem ptlcLock_bytes (receiver refund : Bytes) (tweak : Option Bytes) (deadline : Int) (flags : Nat) (claim : Bytes)
+    (hclaim : (match tweak with | some T => Sodium.aggregatePoints C [receiver, T] | none => pure receiver) = .ok claim) :
+    ptlcLock C receiver refund tweak deadline flags = .ok (armsTail claim refund deadline flags) := by
+  cases tweak with
+  | none =>
+    have : receiver = claim := by injection hclaim
+    subst this
+    rfl
+  | some T =>
+    have h : Sodium.aggregatePoints C [receiver, T] = .ok claim := hclaim
+    unfold ptlcLock armsTail
+    simp only [h]
+    rfl
+
+/-- **C15, PTLC lock: exact outcome.** With the claim key `claim` (the receiver key, or
+    `receiver + T` when a tweak point is given — `ptlcLock_bytes`), selector item `c` and signature
+    `sig` left by the witness: a true selector ends with the C02 verdict of `sig` under the claim
+    key (at any time); a false one ends in an error unless `t ≥ deadline` within the clock slack,
+    and then with the C02 verdict under the refund key. -/
+theorem ptlcLock_run (cfg : Cfg) (hno : cfg.sigExts = []) (c claim refund sig : Bytes) (deadline : Int)
+    (flags : Nat) (st : List Bytes) (sh : Shared) (count : Nat) (t thr : Int)
+    (hrc : claim.length = 32) (hrf : refund.length = 32)
+    (hdl0 : 0 ≤ deadline) (hdl1 : deadline < 2 ^ 62) (hfl : flags < 256)
+    (hs : sh.stack = c :: sig :: st) (hr : sh.returned = false)
+    (ht : lookupC C16.tsKey sh.cache = some (.atom (.int t))) (hthr : cfg.tsThreshold = some thr)
+    (hsz : 64 ≤ cfg.lim.maxItemSize) (hroom : st.length + 3 ≤ cfg.lim.maxItems) :
+    Ends (instrTable H C cfg) cfg.lim (topFrame (armsTail claim refund deadline flags) count) sh
+      (fun r => Res.summary r = armsSpec H C cfg sh.cache (truthy c) claim refund sig deadline flags t thr st) := by
+  unfold topFrame
+  exact armsTail_run H C cfg hno c claim refund sig deadline flags st sh _ t thr rfl (by simp) (by simp)
+    hrc hrf (deadline_len deadline hdl0 hdl1) hfl hs hr ht hthr hsz hroom
+
+/-- … and that outcome is the verdict `[ff]` exactly on the claim path with a C02-valid signature
+    under the claim key, or on the refund path once `t ≥ deadline` (within the slack) with a
+    C02-valid signature under the refund key -/
+theorem armsSpec_accepts_iff (cfg : Cfg) (cache : List (CKey × CVal)) (sel : Bool) (claim refund sig : Bytes) (deadline : Int)
+    (flags : Nat) (t thr : Int) (hdl0 : 0 ≤ deadline) :
+    armsSpec H C cfg cache sel claim refund sig deadline flags t thr [] = .ok [[0xff]] ↔
+      ((sel = true ∧ SigPure.checkSig H C cfg.lim.maxItemSize cache flags sig claim = .ok true) ∨
+       (sel = false ∧ deadline ≤ t ∧ (thr ≤ 0 ∨ t - cfg.now < thr) ∧
+          SigPure.checkSig H C cfg.lim.maxItemSize cache flags sig refund = .ok true)) := by
+  unfold armsSpec
+  rw [refund_time_condition t cfg.now thr deadline hdl0]
+  cases sel with
+  | true =>
+    simp only [↓reduceIte, true_and, Bool.true_eq_false, false_and, or_false]
+    cases SigPure.checkSig H C cfg.lim.maxItemSize cache flags sig claim with
+    | error e => simp
+    | ok b => cases b <;> simp [boolBytes]
+  | false =>
+    simp only [Bool.false_eq_true, ↓reduceIte, false_and, false_or, true_and]
+    by_cases hw : deadline ≤ t ∧ (thr ≤ 0 ∨ t - cfg.now < thr)
+    · simp only [hw, decide_true, Bool.true_eq_false, ↓reduceIte, and_self, true_and]
+      cases SigPure.checkSig H C cfg.lim.maxItemSize cache flags sig refund with
+      | error e => simp
+      | ok b => cases b <;> simp [boolBytes]
+    · simp only [hw, decide_false, ↓reduceIte]
+      constructor
+      · intro h; cases h
+      · intro ⟨h1, h2, _⟩; exact absurd ⟨h1, h2⟩ hw
 
 end htlc
 
